@@ -162,12 +162,22 @@ package types
 //@   ensures[C01,C16] !m.table.big && result != nil ==> exists k :: 0 <= k && k < len(m.table.table) / 3 && smallTag(T, s, k) == tag && result == m.bytes[:smallOff(T, s, k)]
 //@   ensures[C01,C16] m.table.big && result != nil ==> exists k :: 0 <= k && k < len(m.table.table) / 6 && bigTag(T, s, k) == tag && result == m.bytes[:bigOff(T, s, k)]
 //@   noalloc[C17]
+//@   ensures[C01,C16] !m.table.big && SORTS(T, s, len(m.table.table) / 3) ==> (forall k :: 0 <= k && k < len(m.table.table) / 3 && smallTag(T, s, k) == tag && smallOff(T, s, k) <= m.table.data ==> result == m.bytes[:smallOff(T, s, k)])
+//@   ensures[C01,C16] m.table.big && SORTB(T, s, len(m.table.table) / 6) ==> (forall k :: 0 <= k && k < len(m.table.table) / 6 && bigTag(T, s, k) == tag && bigOff(T, s, k) <= m.table.data ==> result == m.bytes[:bigOff(T, s, k)])
+//@   ensures[C01,C16] !m.table.big && SORTS(T, s, len(m.table.table) / 3) && (forall k :: 0 <= k && k < len(m.table.table) / 3 ==> smallTag(T, s, k) != tag) ==> len(result) == 0
+//@   ensures[C01,C16] m.table.big && SORTB(T, s, len(m.table.table) / 6) && (forall k :: 0 <= k && k < len(m.table.table) / 6 ==> bigTag(T, s, k) != tag) ==> len(result) == 0
 
 //@ func (Message).fieldAt
 //@   safety[C02]
 //@   requires m.table.data <= len(m.bytes)
 //@   ensures[C02] within(result, m.bytes)
 //@   noalloc[C17]
+//@   let T = mem(m.table.table)
+//@   let s = lo(m.table.table)
+//@   let e = ite(m.table.big, bigOff(T, s, i), smallOff(T, s, i))
+//@   let n = ite(m.table.big, len(m.table.table) / 6, len(m.table.table) / 3)
+//@   ensures[C01,C16] 0 <= i && i < n && e <= m.table.data ==> result == m.bytes[:e]
+//@   ensures[C01,C16] 0 <= i && i < n && e > m.table.data ==> len(result) == 0
 
 //@ func (Message).HasField
 //@   safety[C02]
@@ -175,6 +185,32 @@ package types
 //@   ensures[C16] !m.table.big && result ==> exists k :: 0 <= k && k < len(m.table.table) / 3 && smallTag(mem(m.table.table), lo(m.table.table), k) == tag && smallOff(mem(m.table.table), lo(m.table.table), k) <= m.table.data
 //@   ensures[C16] m.table.big && result ==> exists k :: 0 <= k && k < len(m.table.table) / 6 && bigTag(mem(m.table.table), lo(m.table.table), k) == tag && bigOff(mem(m.table.table), lo(m.table.table), k) <= m.table.data
 //@   noalloc[C17]
+//@   ensures[C16] !m.table.big && SORTS(mem(m.table.table), lo(m.table.table), len(m.table.table) / 3) ==> (forall k :: 0 <= k && k < len(m.table.table) / 3 && smallTag(mem(m.table.table), lo(m.table.table), k) == tag && smallOff(mem(m.table.table), lo(m.table.table), k) <= m.table.data ==> result)
+//@   ensures[C16] m.table.big && SORTB(mem(m.table.table), lo(m.table.table), len(m.table.table) / 6) ==> (forall k :: 0 <= k && k < len(m.table.table) / 6 && bigTag(mem(m.table.table), lo(m.table.table), k) == tag && bigOff(mem(m.table.table), lo(m.table.table), k) <= m.table.data ==> result)
+
+// ---- clones: a clone is a valid view over a private copy (content equality with the source is
+// not stated: OpenList / OpenMessage re-derive the table from the copied bytes)
+//@ func (List).Clone
+//@   safety[C02]
+//@   ensures[C02] result.table.data <= len(result.bytes) && within(result.table.table, result.bytes)
+//@   ensures[C01] len(result.bytes) <= len(l.bytes) && (len(result.bytes) > 0 ==> fresh(result.bytes))
+
+//@ func (List).CloneTo
+//@   safety[C02]
+//@   modifies uint8 at b
+//@   ensures[C02] result.table.data <= len(result.bytes) && within(result.table.table, result.bytes)
+//@   ensures[C01] len(result.bytes) <= len(l.bytes)
+
+//@ func (Message).Clone
+//@   safety[C02]
+//@   ensures[C02] result.table.data <= len(result.bytes) && within(result.table.table, result.bytes)
+//@   ensures[C01] len(result.bytes) <= len(m.bytes) && (len(result.bytes) > 0 ==> fresh(result.bytes))
+
+//@ func (Message).CloneTo
+//@   safety[C02]
+//@   modifies uint8 at b
+//@   ensures[C02] result.table.data <= len(result.bytes) && within(result.table.table, result.bytes)
+//@   ensures[C01] len(result.bytes) <= len(m.bytes)
 
 // ---- thin accessors (generated by /verif/tools/gen_types_contracts.py)
 
